@@ -4,6 +4,7 @@
 // @h c09_instance_single_vec tier=both bounded=type-arrays-of-2
 // @h c09_format_pairs tier=both bounded=enumerated-literal-format-pairs
 // @h c09_format_int_pairs tier=both bounded=enumerated-literal-format-pairs
+// @h c09_format_unknown_pairs tier=both bounded=enumerated-literal-format-pairs
 // @h c09_choose_value tier=both
 // @canary canary_c09_merge
 //
@@ -257,7 +258,7 @@ fn c09_format_pairs() {
         7 => check_format(Some("date"), Some("date-time"), false),
         8 => check_format(Some("int32"), Some("int32"), true),
         9 => check_format(Some("ip"), Some("ip"), true),
-        10 => check_format(Some(""), Some("uuid"), true),
+        10 => check_format(Some("ipv6"), Some("ipv6"), true),
         _ => check_format(Some("ipv4"), None, true),
     }
     kani::cover!(k == 5, "[must] disjoint pair reachable");
@@ -275,6 +276,19 @@ fn c09_format_int_pairs() {
         3 => check_format(Some("int32"), Some("int64"), true),
         4 => check_format(Some("uint64"), Some("int64"), true),
         _ => check_format(Some("int"), Some("int32"), true),
+    }
+}
+
+#[kani::proof]
+#[kani::unwind(24)]
+fn c09_format_unknown_pairs() {
+    // a format no validator knows is an annotation: it constrains nothing, so it has common
+    // instances with every other format
+    let k: u8 = kani::any();
+    match k {
+        0 => check_format(Some(""), Some("uuid"), true),
+        1 => check_format(Some("my-format"), Some("date"), true),
+        _ => check_format(Some("x"), Some("y"), true),
     }
 }
 
